@@ -344,7 +344,9 @@ def dro_history(draw):
     nrows = len(c['cons'])
     return {'kind': 'dro', 'dro': c, 'late': [draw(st.booleans()) and i >= 2 * c['ny'] for i in range(nrows)],
             'order': draw(st.sampled_from(['supp_exp_prob', 'prob_exp_supp', 'exp_supp_prob'])),
-            'extra_fset': draw(st.booleans()), 'mid': draw(st.sampled_from(['solve', 'primal', 'dual', 'solve+solve']))}
+            'extra_fset': draw(st.booleans()), 'mid': draw(st.sampled_from(['solve', 'primal', 'dual', 'solve+solve'])),
+            # parts of the ambiguity set that are declared differently first and (re)declared after the first formulation
+            'late_amb': sorted(draw(st.sets(st.sampled_from(['supp', 'exp', 'prob']), max_size=2)))}
 
 
 @st.composite
@@ -491,7 +493,18 @@ def check_dro(case):
     c = case['dro']
     labels = ['kind:dro', 'mid:' + case['mid']]
     import rsome as rso
-    m, h = D.build(dict(c, cons=[r for r, late in zip(c['cons'], case['late']) if not late]))
+    import copy
+    c0 = dict(c, cons=[r for r, late in zip(c['cons'], case['late']) if not late])
+    la = [p_ for p_ in case.get('late_amb', []) if not (p_ == 'supp' and c['nu']) and not (p_ == 'exp' and not c['exps'])]
+    if 'supp' in la:        # wider boxes first; the declared supports replace them after the first formulation
+        c0['supports'] = [{'nz': s_['nz'], 'nu': 0, 'centre': s_['centre'], 'pieces': [
+            {'t': 'box', 'lo': [v - 4.0 for v in s_['centre']], 'hi': [v + 4.0 for v in s_['centre']], 'style': 'bounds'}]} for s_ in c['supports']]
+    if 'exp' in la:         # the last expectation set is declared only after the first formulation
+        c0['exps'] = c['exps'][:-1]
+    if 'prob' in la:        # no probability information first
+        c0['prob'] = {'t': 'free'}
+    labels += ['late_amb:' + p_ for p_ in la]
+    m, h = D.build(c0)
     solver, kind = D.pick_solver(c)
     acts = case['mid'].split('+')
     with quiet():
@@ -504,6 +517,10 @@ def check_dro(case):
                 m.solve(solver, display=False)
     x, y, z, u = h['x'], h['y'], h['z'], h['u']
     nz, nu, ny = c['nz'], c['nu'], c['ny']
+    if la:
+        h['declare_amb'](h['fset'], c, parts=[p_ for p_ in la if p_ != 'exp'])
+        if 'exp' in la:
+            h['declare_amb'](h['fset'], c, parts=['exp'], exps=c['exps'][-1:])
     for row, late in zip(c['cons'], case['late']):
         if not late:
             continue
@@ -525,7 +542,7 @@ def check_dro(case):
         return Outcome.skip('not_optimal', labels)
     if abs(v1 - v2) > 1e-6 * (1 + abs(v2)):
         return Outcome.fail('dro:history_vs_scratch', 're-solve after adding constraints gives %.9g, the from-scratch model gives %.9g' % (v1, v2), labels)
-    return Outcome.ok(any(case['late']), labels + (['late_rows'] if any(case['late']) else []))
+    return Outcome.ok(any(case['late']) or bool(la), labels + (['late_rows'] if any(case['late']) else []))
 
 
 PROP = C09()
